@@ -226,6 +226,26 @@ def gen_pol(rng):
     return (math.cos(a), math.sin(a))
 
 
+def pol_form(pol, form, amp=1.0):
+    """the same polarisation direction in the forms the public functions accept: tuple, scaled tuple, 3-component list,
+    ndarray, and the vector-labelled DataArray that HoloPy keeps in metadata (interface.to_vector hands that one on
+    untouched, whatever its length)"""
+    import numpy as np
+    import xarray as xr
+    if form == "tuple":
+        return tuple(pol)
+    if form == "scaled-tuple":
+        return (pol[0] * amp, pol[1] * amp)
+    if form == "list3":
+        return [pol[0] * amp, pol[1] * amp, 0.0]
+    if form == "ndarray":
+        return np.array([pol[0] * amp, pol[1] * amp])
+    return xr.DataArray([pol[0] * amp, pol[1] * amp, 0.0], dims="vector", coords={"vector": ["x", "y", "z"]})
+
+
+POL_FORMS = ["tuple", "xarray", "scaled-tuple", "xarray", "list3", "ndarray"]
+
+
 # ------------------------------------------------------------------------------------------
 # correspondence stages
 
@@ -624,10 +644,15 @@ def stage_media_series(ctx):
     has to follow the Rayleigh formula for ITS relative index (x <= 0.01) and, at x ~ 1-6, to agree with the one-sphere
     cluster theory.  A memo of the expansion coefficients keyed on (size parameter, particle index) alone fails here."""
     import numpy as np
-    from holopy.scattering import Sphere, Multisphere, calc_cross_sections
+    from holopy.scattering import Sphere, Multisphere, Mie, calc_cross_sections
     rng = ctx.subrng("media")
-    for kcase in range(ctx.n(6, 40)):
-        lam0 = rng.choice([0.5, 0.4, 0.66])
+    for kcase in range(ctx.n(8, 40)):
+        # binary fractions: lambda = n_medium * lambda_0 and k = 2 pi n_medium / lambda are then exact, so the wave
+        # vector in the medium is bit-identical along the series
+        lam0 = rng.choice([0.5, 0.625, 0.75]) if kcase % 4 < 3 else rng.choice([0.4, 0.66])
+        # one theory OBJECT reused along the series (a user's `theory = Mie()` at the top of a script) every other
+        # case; the default (a fresh object per call) otherwise
+        shared = Mie() if kcase % 4 >= 2 else None
         small = kcase % 2 == 0
         x = loguni(rng, 2e-3, 1e-2) if small else rng.uniform(1.0, 6.0)
         n = complex(rng.uniform(1.6, 2.2), rng.choice([0.0, loguni(rng, 1e-3, 0.3)]))
@@ -636,9 +661,12 @@ def stage_media_series(ctx):
         for nm in media:
             wl = nm * lam0
             s = Sphere(n=(n if n.imag else n.real), r=r, center=(0, 0, 0))
-            cscat, cabs, cext, g = [float(v) for v in calc_cross_sections(s, nm, wl, (1, 0)).values]
+            if shared is not None:
+                cscat, cabs, cext, g = [float(v) for v in calc_cross_sections(s, nm, wl, (1, 0), theory=shared).values]
+            else:
+                cscat, cabs, cext, g = [float(v) for v in calc_cross_sections(s, nm, wl, (1, 0)).values]
             ctx.explored += 1
-            ctx.count("media-series:%s" % ("rayleigh" if small else "vs-multisphere"))
+            ctx.count("media-series:%s:%s" % ("rayleigh" if small else "vs-multisphere", "shared-theory" if shared is not None else "default-theory"))
             ctx.nontriv(("media", small, nm, kcase))
             data = dict(kind="media", n=n, nm=nm, wl=wl, r=r, x=x, series=media, cross_sections=[cscat, cabs, cext, g])
             if small:
@@ -685,14 +713,17 @@ def stage_multisphere(ctx):
             ctx.count("ms:tight-qeps")
         else:
             th = Multisphere()
-        mie4 = [float(v) for v in calc_cross_sections(s, nm, wl, pol).values]
+        form = POL_FORMS[kcase % len(POL_FORMS)]
+        amp = rng.choice([0.5, 2.5, 3.0, 0.125])
+        mie4 = [float(v) for v in calc_cross_sections(s, nm, wl, pol_form(pol, form, amp)).values]
         with warnings.catch_warnings():
             warnings.simplefilter("ignore")
-            ms4 = [float(v) for v in calc_cross_sections(s, nm, wl, pol, theory=th).values]
+            ms4 = [float(v) for v in calc_cross_sections(s, nm, wl, pol_form(pol, form, amp), theory=th).values]
         ctx.explored += 1
         ctx.count("ms:" + kind)
+        ctx.count("ms:polarisation-form:" + form)
         ctx.nontriv(("ms", kind, round(x, 2)))
-        data = dict(kind="ms", sphere=desc, pol=pol, mie=mie4, multisphere=ms4)
+        data = dict(kind="ms", sphere=desc, pol=pol, pol_form=form, pol_amplitude=amp, mie=mie4, multisphere=ms4)
         sc = mie4[2]
         err = max(abs(ms4[i] - mie4[i]) / sc for i in range(3))
         if not STAT.see("ms-vs-mie:cross-sections", err, TOL_MS):
@@ -985,8 +1016,9 @@ def replay(ctx, data):
         print("replay: Mie cross sections (cscat, cabs, cext, g) = %r" % (cs,))
         print("replay: 4pi/k^2 Re S(0) = %r" % (4 * np.pi / k ** 2 * S0[0, 0].real))
         if kind == "ms":
-            ms = [float(v) for v in calc_cross_sections(s, nm, wl, pol, theory=Multisphere()).values]
-            print("replay: Multisphere cross sections = %r" % (ms,))
+            polarg = pol_form(pol, d.get("pol_form", "tuple"), d.get("pol_amplitude", 1.0))
+            ms = [float(v) for v in calc_cross_sections(s, nm, wl, polarg, theory=Multisphere()).values]
+            print("replay: Multisphere cross sections (polarisation given as %s) = %r" % (d.get("pol_form", "tuple"), ms,))
         print("replay: recorded = %r" % {k_: d[k_] for k_ in d if k_ in ("cross_sections", "mie", "multisphere", "rayleigh")})
     print("replay: re-running the whole check with the recorded seed to re-evaluate the failing predicate")
     ctx.seed = data.get("seed", ctx.seed)
